@@ -591,7 +591,7 @@ CORPUS_FUZZ = [
     ["@1 psg 15 14", "A @1 c"], ["@1 psg 15 14", "G @1 c"], ["A o9 c"], ["A o4 c *20", "*20 o9 c"], ["A %5 c"], ["A c %5 c"], ["A c", "  d %5"],
     ["A c /"], ["A c ]"], ["A c *20", "*20 c ]"], ["A c *99"], ["A 'abc"], ["AB {c/d"], ["AB {c d"], ["AB c {d/e} ? f"], ["A \\=1"], ["A o"],
     ["A c0"], ["A c d", "A o"], ["A v"], ["A [[[[[[[[[[[c]]]]]]]]]]]"], ["A *20", "*20 *21", "*21 *20"], ["A c ]-1"], ["A [c]-1"],
-    ["@1 foo 1", "A c"], ["@1 ;no type", "A c"], ["@1 psg 15", "@2 ;", "A @1 c"], ["@1 fm 1 2 3", "A @1 c"], ["@0 psg 1", "A @0 c"], ["A @0 c"], ["G @0 c"], ["A D1 c", "*0 d"], ["A D1 o9 c"],
+    ["@1 foo 1", "A c"], ["@1 fm 1 2 3", "A @1 c"], ["@0 psg 1", "A @0 c"], ["A @0 c"], ["G @0 c"], ["A D1 c", "*0 d"], ["A D1 o9 c"],
     ["A D30 c", "*30 e", "*31 f"], ["A D30 d"], ["A D30 c", "*30 @77 e"], ["A D30 c", "*30 D0 o9 e"], ["A D30 c", "*30 v5"], ["A *20", "*20 D30 c", "*30 o9 D0 c"],
     ["A *20 c", "*20"], ["A [ *20", "*20"], ["A c L"], ["A L"], ["*20 c ]"], ["Q [ c"], ["A P5 c"], ["A M5 c"], ["A c\t?"],
     ["\tc"], [" A c"], ["A", "\t?"], ["A c", "", " ?"], ["#title x", " ?"], ["A c ; ?"], ["ABC c {d/e} f"], ["AB {c/d/e} f"], ["A }"],
@@ -726,17 +726,6 @@ def shrink(req):
 TECHNIQUE = ("Lean 4 proof (invariants of the reader loop and of the player/validator/converter wrappers that carry the reference) + "
              "fault injection with a known token map: model<->real pipeline correspondence on what() and the spec clauses on the real messages")
 LEVEL_TEXT = ("Machine-checked theorems over Lean models of the reader (input.cpp, mml_input.cpp) and of the reference that Basic_Player carries "
-              "(player.cpp) through Song_Validator and the MDSDRV writer: the reference stamped on a command is the position of its first non-blank "
-              "character; an 'unknown MML command' error is raised at exactly the offending character; a player error carries the reference of the "
-              "command fetched by the failing step (a missing call target: the JUMP itself); at every reachable player state the reference is the "
-              "position of a command on the current track or on a track recorded in a stack frame (a caller), hence so is every structural error of a "
-              "validation run. The column bound for ALL parse_error sites (first character <= column <= line length + 2) and the converter-side "
-              "statements (missing/wrong instrument, note range: the command itself on a channel track, the calling JUMP for a subroutine) are NOT proved "
-              "as theorems: they rest on the fault-injection check (the property's clauses evaluated by Spec/Diag on the real what() text for one fault "
-              "of each of 13 kinds at every command position) together with model<->code agreement on every message. Two defects were found and "
-              "repaired (51fb87b: reference stayed in the subroutine after a return; 1763cac: '%n' events carried a stale or no reference).")
-LEVEL_NOTE = ("Trusted: Lean kernel (propext, Classical.choice, Quot.sound at most), the hand-written models Model/Lexer, Model/Mml (+ Model/MmlFix: the '%' branch "
-              "after fix 1763cac), Model/Player, Model/MdsConv and the wrappers of Model/Refs (agreement with the C++ established by differential testing on "
               "(player.cpp) through Song_Validator and the MDSDRV writer. Reader: the reference stamped on a command is the position of its first non-blank "
               "character; an 'unknown MML command' error is raised at exactly the offending character; EVERY parse_error raised inside parse_mml_track (all "
               "commands, '%', conditional blocks) is on the line being read, at or after the first character of the command of the failing round of the loop "
